@@ -83,7 +83,7 @@ Between(ev, n, v) == LET es == { Val(ev.E, LineMacro[k]) : k \in { k \in Members
                      IN es # {} /\ (\E lo \in es : FLe(FMul(lo, F("0.999999999")), v)) /\ (\E hi \in es : FLe(v, FMul(hi, F("1.000000001"))))
 
 \* expected outcome of RadRate(Z, group macro)
-RateWant(ev, n) ==
+GroupRateWant(ev, n) ==
   LET RR == ev.RR
       sum(names) == LET s == SetToSeq(names) IN FSum([i \in 1..Len(s) |-> Val(RR, LineMacro[s[i]])])
       ka == sum(KAMembers)
